@@ -5,6 +5,7 @@ import ChiModel.Labels
 import ChiModel.ReducedResize
 import ChiModel.TopLevel
 import ChiModel.PosteriorS1
+import ChiModel.CtrlHistory
 import ChiProofs.Props.C02
 import ChiProofs.Props.C08
 import ChiProofs.Props.C07
@@ -718,4 +719,95 @@ example : (hierarchical (α := Nat) 99 2 [1, 1, 1] ⟨.negInf, [7]⟩ (fun _ => 
 example : (hierarchical (α := Nat) 99 2 [1, 1, 1] ⟨.val 1, [7]⟩ (fun _ => ⟨.val 0, [1, 2, 3]⟩)).toOption.map (·.grad)
     = some [1, 2, 10] := by decide
 
+
+/-! ## the controller held across a history of set_population_model / fix_parameters / set_data calls -/
+
+theorem ctrl_subNames_length (n : Nat) (d : String) (k : CtrlHistory.Kind) :
+    (CtrlHistory.subNames n d k).length = CtrlHistory.kindCount n k := by
+  cases k <;> simp [CtrlHistory.subNames, CtrlHistory.kindCount]
+
+theorem ctrl_popNames_length (n : Nat) : ∀ (ks : List CtrlHistory.Kind) (ds : List String), ks.length = ds.length →
+    (CtrlHistory.popNames n ks ds).length = (ks.map (CtrlHistory.kindCount n)).sum := by
+  intro ks
+  induction ks with
+  | nil => intro ds _; cases ds <;> simp [CtrlHistory.popNames]
+  | cons k ks ih =>
+    intro ds h
+    cases ds with
+    | nil => simp at h
+    | cons d ds =>
+      simp only [List.length_cons, Nat.add_right_cancel_iff] at h
+      simp [CtrlHistory.popNames, ctrl_subNames_length, ih ds h]
+
+/-- the invariant of the controller: once a population model and data are set, the population model object has
+    the number of individuals of the dataset -/
+def ctrlInv (st : CtrlHistory.St) : Prop := ∀ n, st.pop.isSome → st.data = some n → st.nModel = n
+
+theorem ctrl_step_inv (bottom : List String) (st : CtrlHistory.St) (op : CtrlHistory.Op) (h : ctrlInv st) :
+    ctrlInv (CtrlHistory.step bottom st op) := by
+  obtain ⟨pop, nModel, data, fixed⟩ := st
+  intro n hp hd
+  cases op with
+  | setPop ks => simp [CtrlHistory.step] at hd ⊢; simp [hd]
+  | setData m => simp [CtrlHistory.step] at hd ⊢; exact hd
+  | fix ns =>
+    cases pop with
+    | none => simp [CtrlHistory.step] at hp
+    | some ks => simp [CtrlHistory.step] at hp hd ⊢; exact h n (by simp) hd
+  | release ns => simp [CtrlHistory.step] at hp hd ⊢; exact h n hp hd
+
+theorem ctrl_run_inv (bottom : List String) : ∀ (ops : List CtrlHistory.Op) (st : CtrlHistory.St),
+    ctrlInv st → ctrlInv (CtrlHistory.run bottom st ops) := by
+  intro ops
+  induction ops with
+  | nil => intro st h; exact h
+  | cons op ops ih => intro st h; exact ih _ (ctrl_step_inv bottom st op h)
+
+theorem ctrl_posteriorTop (bottom : List String) (st : CtrlHistory.St) (h : ctrlInv st) (top : List String)
+    (htop : CtrlHistory.posteriorTop bottom st = some top) : top = CtrlHistory.names bottom st := by
+  obtain ⟨pop, nModel, data, fixed⟩ := st
+  cases data with
+  | none => simp [CtrlHistory.posteriorTop] at htop
+  | some n =>
+    cases pop with
+    | none => simp [CtrlHistory.posteriorTop] at htop
+    | some ks =>
+      have hn : nModel = n := h n (by simp) rfl
+      subst hn
+      simp [CtrlHistory.posteriorTop] at htop
+      exact htop.symm
+
+/-- C17 (controller held across a history): after EVERY sequence of `set_population_model` / `set_data` (any
+    numbers of individuals) / `fix_parameters` (fix and release) calls, the reported count is the number of reported
+    names, and whenever a posterior can be built its top-level names ARE the reported names — so a prior of the
+    reported dimension has the dimension the posterior demands. -/
+theorem C17_controller_history (bottom : List String) (ops : List CtrlHistory.Op) :
+    CtrlHistory.count bottom (CtrlHistory.run bottom CtrlHistory.init ops) =
+      (CtrlHistory.names bottom (CtrlHistory.run bottom CtrlHistory.init ops)).length ∧
+    ∀ top, CtrlHistory.posteriorTop bottom (CtrlHistory.run bottom CtrlHistory.init ops) = some top →
+      top = CtrlHistory.names bottom (CtrlHistory.run bottom CtrlHistory.init ops) ∧
+      top.length = CtrlHistory.count bottom (CtrlHistory.run bottom CtrlHistory.init ops) := by
+  refine ⟨rfl, ?_⟩
+  intro top htop
+  have hinv : ctrlInv (CtrlHistory.run bottom CtrlHistory.init ops) :=
+    ctrl_run_inv bottom ops CtrlHistory.init (by intro n hp; simp [CtrlHistory.init] at hp)
+  have := ctrl_posteriorTop bottom _ hinv top htop
+  exact ⟨this, by rw [this]; rfl⟩
+
+/-- with nothing fixed the reported count is the sum of the sub-models' counts for the current number of
+    individuals (a heterogeneous sub-model contributes one parameter per individual) -/
+theorem C17_controller_names_count (bottom : List String) (ks : List CtrlHistory.Kind) (n : Nat) (d : Option Nat)
+    (h : ks.length = bottom.length) :
+    CtrlHistory.count bottom ⟨some ks, n, d, []⟩ = (ks.map (CtrlHistory.kindCount n)).sum := by
+  simp [CtrlHistory.count, CtrlHistory.names, CtrlHistory.allNames, ctrl_popNames_length n ks bottom h]
+
+/-- the `if … elif …` variant of `set_data` (unwrap the reduced model OR set the number of individuals) breaks the
+    agreement: heterogeneous + pooled, the pooled parameter fixed, then data of 3 individuals — the controller reports
+    2 parameters, the posterior has 4 top-level parameters -/
+theorem C17_controller_history_unwrap_only_counterexample :
+    ∃ (bottom : List String) (ops : List CtrlHistory.Op),
+      (CtrlHistory.posteriorTop bottom (ops.foldl (CtrlHistory.stepUnwrapOnly bottom) CtrlHistory.init)).map List.length
+        ≠ some (CtrlHistory.count bottom (ops.foldl (CtrlHistory.stepUnwrapOnly bottom) CtrlHistory.init)) := by
+  refine ⟨["a", "b"], [.setPop [.het, .pooled], .fix ["Pooled b"], .setData 3], ?_⟩
+  decide
 end ChiModel
